@@ -6,7 +6,8 @@ the specification (Rv.Spec.RedisCommands via Rv.Bld.judge).
   path <init|noslot> <Root> (.<Method> <arg>*)* =<Build|Cache>
       → ok ty=<type> argv=<hex,…> ks=<n> cf=<n> fl=<ro blk noreply unsub retry pipe mget optin static>
       | panic | stuck:<why>
-  judge / !judge <name-hex> <blockOpt 0|1> <cache 0|1> <cf>   → ok | bad:<clause>:<name>
+  judge / !judge <name-hex> <blockOpt 0|1> <cache 0|1> <cf> [:: the path it came from]  → ok | bad:<clause>:<name>
+  !opt <EX|PX|EXAT|PXAT> <d:…|t:…>                             → hex of the decimal number the option's unit demands
   tables                                                       → counts (roots methods builds caches) + name-code check
 
 argument words: s:<hex>  v:<hex>,<hex>…  i:/u:/f:/d:<16 hex>  I:/U:/F:<16 hex>,…  t:<16 hex>:<8 hex>
@@ -91,7 +92,19 @@ def step (t : Tab) (ws : List String) : Tab × String :=
         | .ok s => (t, showSt s)
         | .error .panic => (t, "panic")
         | .error (.stuck why) => (t, "stuck:" ++ why)
-  | [j, nameHex, bo, ca, cf] =>
+  | "!opt" :: tok :: arg :: _path =>
+    -- oracle line: the specification of the option's unit (not the regenerated records)
+    match parseArg arg with
+    | some (.dur ns) =>
+      if tok == "EX" then (t, Hex.encode (fmtInt (Int.tdiv ns 1000000000)))        -- seconds
+      else if tok == "PX" then (t, Hex.encode (fmtInt (Int.tdiv ns 1000000)))      -- milliseconds
+      else (t, "bad-op")
+    | some (.time sec nsec) =>
+      if tok == "EXAT" then (t, Hex.encode (fmtInt sec))                           -- unix time, seconds
+      else if tok == "PXAT" then (t, Hex.encode (fmtInt (wrap64 (sec * 1000 + Int.ofNat (nsec / 1000000)))))  -- unix time, ms
+      else (t, "bad-op")
+    | _ => (t, "bad-op")
+  | j :: nameHex :: bo :: ca :: cf :: _path =>
     if j != "judge" && j != "!judge" then (t, "bad-op") else
     match Hex.decode nameHex, cf.toNat? with
     | some nb, some cfv =>
